@@ -393,6 +393,29 @@ Fixpoint settle_gated (fuel : nat) (s : ui) : ui :=
       end
   end.
 
+(* the harness can also hold the FETCH of a page that is being opened (":open", "." on a link): the task that installs the page
+   stays pending and the interface stays in loading mode while keys and resizes arrive *)
+Definition is_open (t : task) : bool := match t with TOpen _ | TFeed _ => true | _ => false end.
+
+Fixpoint take_allowed (ok : task -> bool) (ts : list task) : option (task * list task) :=
+  match ts with
+  | [] => None
+  | t :: r => if ok t then Some (t, r)
+              else match take_allowed ok r with Some (x, r') => Some (x, t :: r') | None => None end
+  end.
+
+(* only the goroutines the harness lets through can finish *)
+Fixpoint settle_sel (ok : task -> bool) (fuel : nat) (s : ui) : ui :=
+  match fuel with
+  | O => s
+  | S f =>
+      match take_allowed ok (u_tasks s) with
+      | None => s
+      | Some (t, rest) =>
+          settle_sel ok f (run_task (mkui (u_pages s) (u_hist s) (u_mode s) (u_buffer s) (u_width s) (u_height s) rest (u_frames s)) t)
+      end
+  end.
+
 Fixpoint extent (fuel : nat) (f : feed I) (dir : Z) (k : Z) : Z :=
   match fuel with
   | O => k
